@@ -159,6 +159,10 @@ for _nm in ["eq", "ne", "lt", "le", "gt", "ge"]:
 E("selectcontains", 1, lambda S: etl.selectcontains(S[0], "s", "x"), "stream rect")
 E("selectin", 1, lambda S: etl.selectin(S[0], "v", [1, 2]), "stream")
 E("selectnotin", 1, lambda S: etl.selectnotin(S[0], "v", [1, 2]), "stream")
+# auxiliary arguments that are themselves lazy views over another source (a membership collection, a column)
+E("selectin_lazy", 2, lambda S: etl.selectin(S[0], "v", etl.values(S[1], "v")), "stream")
+E("selectnotin_lazy", 2, lambda S: etl.selectnotin(S[0], "k", etl.values(S[1], "k")), "stream")
+E("addcolumn_lazy", 2, lambda S: etl.addcolumn(S[0], "z", etl.values(S[1], "v")), "stream rect")
 E("selectis", 1, lambda S: etl.selectis(S[0], "v", None), "stream")
 E("selectisnot", 1, lambda S: etl.selectisnot(S[0], "v", None), "stream")
 E("selectisinstance", 1, lambda S: etl.selectisinstance(S[0], "v", int), "stream")
